@@ -76,9 +76,9 @@ CONFIGS_MORE = [c for c in _all_configs() if c not in CONFIGS_QUICK]
 
 
 def creq(op, sf, sw, sh, srep, sfilt, t, mf, mw, mh, mrep, mca, df, dw, dh, sx, sy, mx, my, dx, dy, w, h, seed,
-         sopaque=0, shared=0, acc=0):
+         sopaque=0, shared=0, acc=0, dclip=0):
     f = [op, sf, sw, sh, srep, sfilt] + list(t) + [mf, mw, mh, mrep, mca, df, dw, dh, sx, sy, mx, my, dx, dy, w, h,
-                                                    seed, sopaque, shared, acc]
+                                                    seed, sopaque, shared, acc, dclip]
     return "C %d %s" % (len(f), " ".join(str(int(x)) for x in f))
 
 
@@ -117,7 +117,7 @@ def gen_requests(rng, n, threads=False):
         # fast path cache sees hits at every depth, move-to-front and eviction
         if recent and rng.random() < 0.45:
             parts = rng.choice(recent[-rng.choice([1, 2, 4, 8, 9, 12]):]).split()
-            parts[-4] = str(seed)
+            parts[-5] = str(seed)
             reqs.append(" ".join(parts))
             continue
         if cls in ("fill", "blt") and threads and rng.random() < 0.5:
@@ -196,13 +196,16 @@ def gen_requests(rng, n, threads=False):
                         sf = df if df in (F["a8r8g8b8"], F["x8r8g8b8"], F["r5g6b5"], F["a8"]) else sf
                         op, mf = 1, 0
                 if threads and rng.random() < 0.4:
-                    shared = rng.randint(1, 3)
+                    shared = rng.choice([1, 2, 3, 4, 4, 5, 5])
             # read/write accessors on thread-private images (destination / mask / private source)
             acc = rng.choice([0, 0, 0, 1, 2, 3, 4, 5]) if (threads or rng.random() < 0.15) else 0
             if shared:
                 acc &= 3
+            # a destination clip of many boxes (with a clipped shared source the composite region then has more
+            # boxes than the source's clip and the offsets dx - sx, dy - sy are rarely zero)
+            dclip = rng.choice([1, 2]) if (rng.random() < (0.6 if shared >= 4 else 0.12)) else 0
             reqs.append(creq(op, sf, sw, sh, srep, sfilt, t, mf, mw, mh, mrep, mca, df, dw, dh, sx, sy, mx, my,
-                             dx, dy, w, h, seed, sopaque, shared, acc))
+                             dx, dy, w, h, seed, sopaque, shared, acc, dclip))
             recent.append(reqs[-1])
     return reqs
 
@@ -385,7 +388,7 @@ def run_c02(args):
     exe, px = vf.build_driver("drv_dispatch", "plain", cflags=["-pthread"])
     chk.extra["build"] = px["hash"]
     configs = CONFIGS_QUICK + ([] if quick else CONFIGS_MORE)
-    reqs = gen_requests(rng, 500 if quick else 2500)
+    reqs = gen_requests(rng, 500 if quick else 6000)
     directed = table_directed_requests(rng, exe, wd, configs)
     if quick and len(directed) > 1100:
         directed = rng.sample(directed, 1100)
@@ -449,7 +452,7 @@ def run_c16(args):
     mc(chk, [("T2", False), ("negshared", True)])
     exe, px = vf.build_driver("drv_dispatch", "plain", cflags=["-pthread"])
     chk.extra["build"] = px["hash"]
-    reqs = gen_requests(rng, 600 if quick else 3000, threads=True)
+    reqs = gen_requests(rng, 600 if quick else 6000, threads=True)
     script = os.path.join(wd, "reqs.script")
     open(script, "w").write("\n".join(reqs) + "\n")
     chk.sample({"request_script_lines": reqs[:3]})
@@ -462,7 +465,7 @@ def run_c16(args):
     lfiles = [lookup_file(solo, solo + ".lookup")]
     thread_counts = [2, 5] if quick else [2, 3, 5, 8]
     for nt in thread_counts:
-        for rep in range(1 if quick else 3):
+        for rep in range(1 if quick else 6):
             tr = os.path.join(wd, "thr%d_%d.ndjson" % (nt, rep))
             p = run_config(exe, script, tr, "", nthreads=nt)
             if p.returncode != 0:
